@@ -206,13 +206,13 @@ def truncateTo (a : Bytes) (n : Nat) : Bytes := a.take n ++ List.replicate (n - 
 
 /-- `with open(archive, 'r+b') as out: out.truncate(before_offset)` -/
 def rollbackPhase (fs : FS) (n : Nat) (s : Sched) : Ph :=
-  match fs.archive with
-  | none => ⟨fs, [(.ropen, .enoent)], some .raised⟩
-  | some a =>
-    match s.ropen with
-    | .fail k => ⟨fs, [(.ropen, .fail k)], some .raised⟩
-    | .die k => ⟨fs, [(.ropen, .die k)], some .died⟩
-    | .ok =>
+  match s.ropen with
+  | .fail k => ⟨fs, [(.ropen, .fail k)], some .raised⟩
+  | .die k => ⟨fs, [(.ropen, .die k)], some .died⟩
+  | .ok =>
+    match fs.archive with
+    | none => ⟨fs, [(.ropen, .enoent)], some .raised⟩     -- FileNotFoundError (the open for append failed before creating it)
+    | some a =>
       match s.rtrunc with
       | .die k => ⟨fs, [(.ropen, .ok), (.rtrunc n, .die k)], some .died⟩
       | .fail k => closeStep fs [(.ropen, .ok), (.rtrunc n, .fail k)] .rclose s.rclose true
